@@ -90,6 +90,17 @@ def file_species_expected(case, i):
     return sorted(sp)
 
 
+def species_outside_dimension(case, k):
+    """does trajectory k hold, in some species-indexed field, a species that the first record of the store gave no
+    place in the species dimension of that field's file?  (Derived from the case itself, not from a generator flag.)"""
+    if k >= len(case['trajs']):
+        return False
+    for (i, j, f, v) in species_fields(case, k):
+        if isinstance(v, dict) and v and not set(int(s) for s in v) <= set(file_species_expected(case, i)):
+            return True
+    return False
+
+
 def f2_applies(case, k, i, j):
     """F2 can show at field (i, j) of trajectory k: the field holds species, and either its species are not at
     their enum positions in the file, or the file has further species the field does not hold."""
@@ -114,7 +125,7 @@ def classify_refusal(case, run, fixed):
         return True, None, f'field set definition raised {msg}'
     if cls == 'EAttr' and "has no attribute 'size'" in msg and has_tp_str:
         return True, SIG_TP_STR, 'a per-point string field cannot be written'
-    if case.get('out_of_dim') and cls == 'EValue' and 'species dimension' in msg and k == len(case['trajs']) - 1:
+    if species_outside_dimension(case, k) and cls == 'EValue' and 'species dimension' in msg:
         return False, None, 'refused by name: species outside the store\'s species dimension'
     if phase == 2 and cls == 'EHdf':
         sig = classify_read_error(case, k, cls, base_only=True, rorder=run.rorder1)
